@@ -613,3 +613,20 @@ func (s *UtxoStore) VerifWF() bool { return s != nil && s.bucketMeta != nil }
 //@   modifies bmap(ns)
 //@   at "err = ns.Delete(key)" assert[C10] len(key) == 88 && key[43] == 1
 //@   at "return ns.Put(keyGameHistory(&history), valueGameHistory(&history))" assert[C10] !history.withdrawn
+
+// ---- C09 (settle on confirmation): the purge of double spends runs only once the confirming transaction itself is no
+// longer in the pending bucket -- while it is, it is listed as spender of its own inputs and would be purged, with its
+// unconfirmed descendants, as its own conflict
+//@ func (*TxStore).removeDoubleSpends
+//@   props C09
+//@   trusted
+//@   requires s != nil && s.bucketMeta != nil && tx != nil && rec != nil
+//@   requires[C09] !bhasI(B(tx, s.bucketMeta.nsUnmined), rec.Hash)
+//@   modifies *
+//@ func (*TxStore).insertMinedTx
+//@   props C09
+//@   nopanic off
+//@   requires s != nil && s.bucketMeta != nil && s.utxoStore != nil && sameRef(s.bucketMeta, s.utxoStore.bucketMeta) && tx != nil && rec != nil && pendingBktsDistinct(tx, s)
+//@   modifies *
+//@   only removeDoubleSpends deleteRawUnmined existsRawUnmined deleteUnminedCredits FetchBucket
+//@   dbonly existsTxRecord existsBlockRecord putBlockRecord appendRawBlockRecord putRawBlockRecord putTxRecord updateMinedBalance
